@@ -2,6 +2,7 @@ package sym
 
 import (
 	"fmt"
+	"os"
 	"go/token"
 	"go/types"
 	"strings"
@@ -113,6 +114,9 @@ func init() {
 			id := mustStr(args[0], "vAssert")
 			c := args[1].(*smt.Term)
 			st.Reached[id] = true
+			if os.Getenv("VERIF_DEBUG_ASSERT") != "" {
+				fmt.Printf("[assert] %s const=%v size=%d\n", id, c.IsConst(), smt.Size(c))
+			}
 			if !c.IsTrue() {
 				ex.fail(st, "assert", id, ex.st.Not(c), site(in))
 			}
